@@ -86,3 +86,43 @@ theorem crun_wait (cfg : Cfg) (cs : CState) (evs : List CEv) (h : AllWait cfg cs
     exact ih _ (cstep_wait cfg cs e h)
 
 end Proofs.ListenerHttp
+
+namespace Proofs.ListenerHttp
+open Pywbem.Proto Pywbem.Model Pywbem.Model.XmlText Pywbem.Model.ListenerHttp
+
+/-! ### the request line -/
+
+theorem emitError_cases (v : Str) (code : Nat) : emitError v code = .bare code ∨ emitError v code = .stdlib code := by
+  unfold emitError; split <;> simp
+
+/-- the only things parse_request itself sends -/
+theorem parseRequestLine_reject {raw : Str} {w : Wire} (h : parseRequestLine raw = .reject w) :
+    w = .stdlib 414 ∨ w = .bare 400 ∨ w = .bare 505 ∨ w = .stdlib 400 := by
+  unfold parseRequestLine at h
+  split at h
+  · cases h; exact Or.inl rfl
+  · split at h
+    · cases h
+    · simp only at h
+      split at h
+      · cases h
+      · split at h
+        · rename_i w' hv
+          cases h
+          split at hv
+          · split at hv
+            · cases hv; exact Or.inr (Or.inl rfl)
+            · split at hv
+              · cases hv; exact Or.inr (Or.inr (Or.inl rfl))
+              · cases hv
+          · cases hv
+        · rename_i ver hv
+          split at h
+          · split at h
+            · cases h; exact Or.inr (Or.inl rfl)
+            · cases h
+          · cases h
+          · cases h
+            rcases emitError_cases ver 400 with e | e <;> rw [e] <;> simp
+
+end Proofs.ListenerHttp
